@@ -607,6 +607,8 @@ def parse_global(line, mod):
         if v == 'alias':
             p.next()
             parse_type(p)
+            if p.peek()[1] == '(':
+                skip_parens(p)  # function type
             p.expect(',')
             parse_type(p)
             tgt = p.next()[1][1:].strip('"')
